@@ -10,7 +10,7 @@ CONSTANTS
   KeyFields <- AllKey
   Resps <- RespsC05
   LazyTTLs = {0, 50}
-  Ticks = {3, 4, 7, 10, 18, 28, 32, 48, 52, 298}
+  Ticks = {1, 3, 4, 7, 8, 10, 18, 28, 32, 48, 52, 298}
   MaxNow = 400
   MaxOps = 6
   NxMax = 30
@@ -20,6 +20,7 @@ CONSTANTS
   TTLMode = "stored"
   Admit = "rule"
   Dedup = TRUE
+  RefreshOwner = "asked"
   Alias = "none"
   DumpFields <- AllDump
   Insts = {1}
